@@ -116,13 +116,32 @@ Fixpoint lfor (I : nat -> interp) (rkey : nat -> nat) (body : list lstmt) (j0 cn
   | S c => obind (lexec (I j0) rkey j0 body s) (lfor I rkey body (S j0) c)
   end.
 
+(* for idx in <explicit list of indices>: body   (random order: the permutation drawn in this iteration) *)
+Fixpoint lforl (I : nat -> interp) (rkey : nat -> nat) (body : list lstmt) (idxs : list nat) (s : lst) : option lst :=
+  match idxs with
+  | [] => Some s
+  | j :: idxs' => obind (lexec (I j) rkey j body s) (lforl I rkey body idxs')
+  end.
+
 (* one pass over the main loop body; nops = number of operators *)
 Fixpoint litems (I : nat -> interp) (rkey : nat -> nat) (nops : nat) (its : list litem) (s : lst) : option lst :=
   match its with
   | [] => Some s
   | IFor body :: its' => obind (lfor I rkey body 0 nops s) (litems I rkey nops its')
+  | IForOrd _ :: _ => None            (* needs the permutation: litems_ord *)
   | IStmt c :: its' => obind (lexec1 (I 0%nat) rkey 0 s c) (litems I rkey nops its')
   end.
+(* the same with the permutation [ord] drawn in this iteration *)
+Fixpoint litems_ord (I : nat -> interp) (rkey : nat -> nat) (nops : nat) (ord : list nat) (its : list litem) (s : lst)
+  : option lst :=
+  match its with
+  | [] => Some s
+  | IFor body :: its' => obind (lfor I rkey body 0 nops s) (litems_ord I rkey nops ord its')
+  | IForOrd body :: its' => obind (lforl I rkey body ord s) (litems_ord I rkey nops ord its')
+  | IStmt c :: its' => obind (lexec1 (I 0%nat) rkey 0 s c) (litems_ord I rkey nops ord its')
+  end.
+Fixpoint literk (n k0 : nat) (f : nat -> lst -> option lst) (s : lst) : option lst :=
+  match n with O => Some s | S k => obind (f k0 s) (literk k (S k0) f) end.
 
 (* preamble; nkeys = number of distinct ranges *)
 Definition pexec1 (I : nat -> interp) (rkey : nat -> nat) (nops nkeys : nat) (s : lst) (c : pstmt) : option lst :=
